@@ -107,6 +107,16 @@ CLAIMED = {
             "predict/transform and the norm='L2' equality with scikit-learn's KMeans.",
             "integer data (exact after doubling); norm='L2' is an equality the trace spec evaluates, not a model of "
             "Euclidean k-means."),
+    "C10": ("DESIGN 4/C10",
+            "TLA+ spec LogregTree (explicit-stack machine of the recursive node fit with the code's index allocation; "
+            "three traversals over tri-state rows): TLC model checking incl. a negative run + event-level trace validation "
+            "of node enter/split/exit (hook H2) and spec-side tree walks for probe rows",
+            "TLC checks distinct indices below n_nodes_, depth bound, decision_path = predict_proba path, leaves = "
+            "terminals for every tree the recursion can build in the bound; for seeded fits every node event must be a "
+            "step of the stack machine (guards, early returns, index allocation), and for probe rows the specification "
+            "itself walks the fitted tree from per-node comparisons and checks decision_path, predict_proba, predict.",
+            "exact ties with the threshold are exercised through a lookup stub classifier; for real learners near-ties "
+            "(1e-9) are skipped; min_samples_leaf is modelled as the code applies it (node size)."),
 }
 
 PENDING_REASON = "check not built yet in this round (planned: see DESIGN.md section 4); not claimed until it runs"
@@ -154,7 +164,7 @@ def build():
 
 
 NA = {}
-HOOK_COMMITS = ["d780bd4"]
+HOOK_COMMITS = ["d780bd4", "fe74ecc", "fccf736"]
 
 if __name__ == "__main__":
     m = build()
